@@ -170,7 +170,10 @@ Proof. exact bnaf_lower_slope. Qed.
 Print Assumptions X09_bnaf_lower_slope.
 
 (* ... (4) the derivative form: wherever d y_i / d x_i exists it is >= K > 0.
-   _partial: existence of the derivative (chain rule through the network) is not proved. *)
+   _partial: says nothing about EXISTENCE of the derivative (and cannot: it has no differentiability hypothesis on act).
+   The FULL statement -- for an everywhere-differentiable activation the derivative exists at every point (chain rule
+   through the network) and is >= K > 0 -- is now X09_bnaf_own_derivative_positive in section (5) below; this theorem is
+   kept as the half of it that needs no differentiability of the activation. *)
 Theorem X09_bnaf_own_derivative_positive_partial :
   forall (act : R -> R) (ga : R), 0 < ga -> (forall s t : R, s <= t -> ga * (t - s) <= act t - act s) ->
   forall (dim depth bd : nat) (raws : list raw_layer) (cterm : option (list R)),
@@ -256,4 +259,91 @@ Proof.
   destruct (bnaf_leaky_inverse_within_tol 3 2 1 1 exr_raws None [1/2; -7] (-10) 10 (1/1000000) 200) as [f0 [xs [H1 [_ H3]]]];
     try reflexivity; try lra; try lia; try exact I; try exact X09_example_raw_wf.
   exists f0, xs. split; assumption.
+Qed.
+
+(* ---------- (5) the own-coordinate derivative EXISTS everywhere and is >= K > 0 ---------- *)
+(* Lemmas: Proofs/BnafDerivP.v.  [ex_derive] / [is_derive] are Coquelicot's (equivalent to the stdlib's
+   derivable_pt_lim by is_derive_Reals). *)
+From Coquelicot Require Import Coquelicot.
+From FJ Require Import Proofs.BnafDerivP.
+
+(* chain rule through the block-autoregressive network: any activation that is differentiable at every real, every
+   dim / depth / block size, every raw weight, any condition term, every coordinate i, every point y and every real t.
+   (The weights after softplus / Where / weight normalisation are constants of tau; only the inputs move.) *)
+Theorem X09_bnaf_own_derivative_exists :
+  forall act : R -> R, (forall x : R, ex_derive act x) ->
+  forall (dim depth bd : nat) (raws : list raw_layer) (cterm : option (list R)),
+    Forall2 (raw_wf dim) (bnaf_block_shapes depth bd) raws ->
+    match cterm with Some t => (bd * dim <= length t)%nat | None => True end ->
+  forall (i : nat) (y : list R) (t : R), (i < dim)%nat -> length y = dim ->
+    ex_derive (fun tau : R => nth i (bnaf_R act dim depth bd raws cterm (upd y i tau)) 0) t.
+Proof. exact bnaf_own_derivative_exists. Qed.
+Print Assumptions X09_bnaf_own_derivative_exists.
+
+(* the value being differentiated is the genuine i-th output, not the default of [nth] *)
+Theorem X09_bnaf_own_value :
+  forall (act : R -> R) (ga : R), 0 < ga -> (forall s t : R, s <= t -> ga * (t - s) <= act t - act s) ->
+  forall (dim depth bd : nat) (raws : list raw_layer) (cterm : option (list R)),
+    (0 < bd)%nat -> Forall2 (raw_wf dim) (bnaf_block_shapes depth bd) raws ->
+    match cterm with Some t => (bd * dim <= length t)%nat | None => True end ->
+  forall (i : nat) (y : list R) (t : R), (i < dim)%nat -> length y = dim ->
+    nth_error (bnaf_R act dim depth bd raws cterm (upd y i t)) i =
+    Some (nth i (bnaf_R act dim depth bd raws cterm (upd y i t)) 0).
+Proof. exact bnaf_own_value. Qed.
+Print Assumptions X09_bnaf_own_value.
+
+(* FULL form of X09_bnaf_own_derivative_positive_partial: with an everywhere-differentiable activation of positive lower
+   slope the diagonal partial d y_i / d x_i EXISTS at every point and is bounded below by one K > 0 that depends on the
+   parameters only ("strictly positive diagonal" of the Jacobian, uniformly). *)
+Theorem X09_bnaf_own_derivative_positive :
+  forall (act : R -> R) (ga : R), 0 < ga -> (forall s t : R, s <= t -> ga * (t - s) <= act t - act s) ->
+    (forall x : R, ex_derive act x) ->
+  forall (dim depth bd : nat) (raws : list raw_layer) (cterm : option (list R)),
+    (0 < bd)%nat -> Forall2 (raw_wf dim) (bnaf_block_shapes depth bd) raws ->
+    match cterm with Some t => (bd * dim <= length t)%nat | None => True end ->
+    exists K : R, 0 < K /\
+      (forall (i : nat) (y : list R) (t : R), (i < dim)%nat -> length y = dim ->
+         exists d : R,
+           is_derive (fun tau : R => nth i (bnaf_R act dim depth bd raws cterm (upd y i tau)) 0) t d /\ K <= d).
+Proof. exact bnaf_own_derivative_positive_full. Qed.
+Print Assumptions X09_bnaf_own_derivative_positive.
+
+(* the two activations of flowjax are differentiable at every real (LeakyTanh: the switch points +-max_val included) *)
+Theorem X09_activations_differentiable :
+  (forall m : R, 0 < m -> forall x : R, ex_derive (leaky_act m) x) /\ (forall x : R, ex_derive tanh_act x).
+Proof. exact activations_differentiable. Qed.
+Print Assumptions X09_activations_differentiable.
+
+(* BNAF with its default activation LeakyTanh(max_val = m > 0): for every raw parameter value, depth, block size and
+   condition term the diagonal partials exist everywhere and are >= K > 0.  No hypothesis left. *)
+Theorem X09_bnaf_leaky_own_derivative_positive :
+  forall (m : R) (dim depth bd : nat) (raws : list raw_layer) (cterm : option (list R)),
+    0 < m -> (0 < bd)%nat -> Forall2 (raw_wf dim) (bnaf_block_shapes depth bd) raws ->
+    match cterm with Some t => (bd * dim <= length t)%nat | None => True end ->
+    exists K : R, 0 < K /\
+      (forall (i : nat) (y : list R) (t : R), (i < dim)%nat -> length y = dim ->
+         exists d : R,
+           is_derive (fun tau : R => nth i (bnaf_R (leaky_act m) dim depth bd raws cterm (upd y i tau)) 0) t d /\ K <= d).
+Proof. exact bnaf_leaky_own_derivative_positive. Qed.
+Print Assumptions X09_bnaf_leaky_own_derivative_positive.
+
+(* BNAF with Tanh: the diagonal partials exist everywhere (there is no uniform K: tanh' tends to 0) *)
+Theorem X09_bnaf_tanh_own_derivative_exists :
+  forall (dim depth bd : nat) (raws : list raw_layer) (cterm : option (list R)),
+    Forall2 (raw_wf dim) (bnaf_block_shapes depth bd) raws ->
+    match cterm with Some t => (bd * dim <= length t)%nat | None => True end ->
+  forall (i : nat) (y : list R) (t : R), (i < dim)%nat -> length y = dim ->
+    ex_derive (fun tau : R => nth i (bnaf_R tanh_act dim depth bd raws cterm (upd y i tau)) 0) t.
+Proof. exact bnaf_tanh_own_derivative_exists. Qed.
+Print Assumptions X09_bnaf_tanh_own_derivative_exists.
+
+(* non-vacuity: the network exr_raws above (dim 2, depth 1, block_dim 1, entries of both signs) with LeakyTanh(3) meets
+   every hypothesis; its second output has a derivative >= K > 0 in its own input at the point (1, 4) *)
+Example X09_example_leaky_derivative :
+  exists K : R, 0 < K /\ exists d : R,
+    is_derive (fun tau : R => nth 1 (bnaf_R (leaky_act 3) 2 1 1 exr_raws None (upd [1; 5] 1 tau)) 0) 4 d /\ K <= d.
+Proof.
+  destruct (bnaf_leaky_own_derivative_positive 3 2 1 1 exr_raws None) as [K [HK H]];
+    try lra; try lia; try exact I; try exact X09_example_raw_wf.
+  exists K. split; [exact HK|]. apply (H 1%nat [1; 5] 4); [lia|reflexivity].
 Qed.
